@@ -43,48 +43,100 @@ Proof.
     rewrite app_length, Nat2N.inj_add. f_equal; [exact Hx | exact IHr].
 Qed.
 
-(* ------------------------------------------------------------------ Go's int count is the mathematical count modulo 2^64 *)
-Lemma wrap_i64_mod : forall z, (wrap_i64 z mod 18446744073709551616 = z mod 18446744073709551616)%Z.
+(* ------------------------------------------------------------------ Go's int count saturates at math.MaxInt *)
+(* what the saturating count knows about the mathematical count n: it is exact, or it is MaxInt *)
+Definition sat_of (r : Z) (n : N) : Prop := (0 <= r <= max_int)%Z /\ (r = max_int \/ r = Z.of_N n).
+
+Lemma div_max_lt : forall v, (2 <= v)%Z -> (max_int / v < max_int)%Z.
+Proof. intros v H. apply Z.div_lt; unfold max_int; lia. Qed.
+
+Lemma mul_div_le_max : forall a v, (0 < v)%Z -> (a <= max_int / v)%Z -> (a * v <= max_int)%Z.
 Proof.
-  intro z. unfold wrap_i64.
-  rewrite Zminus_mod, Zmod_mod, <- Zminus_mod.
-  replace (z + 9223372036854775808 - 9223372036854775808)%Z with z by lia. reflexivity.
+  intros a v Hv H. pose proof (Z.mul_div_le max_int v Hv) as M.
+  assert (a * v <= (max_int / v) * v)%Z by (apply Z.mul_le_mono_nonneg_r; lia). lia.
 Qed.
 
-Lemma wrap_i64_congr : forall a b, (a mod 18446744073709551616 = b mod 18446744073709551616)%Z -> wrap_i64 a = wrap_i64 b.
+Lemma seq_loop_sat : forall (l : list node),
+  Forall (fun x => sat_of (num_variants64 x) (num_variants x)) l ->
+  forall acc tacc, sat_of acc tacc ->
+  sat_of ((fix go (l : list node) (num : Z) : Z :=
+             match l with
+             | [] => num
+             | x :: r => let v := num_variants64 x in
+                         if negb (v =? 0)%Z && (max_int / v <? num)%Z then max_int else go r (num * v)%Z
+             end) l acc)
+         (tacc * (fix go (l : list node) : N := match l with [] => 1 | x :: r => num_variants x * go r end) l).
 Proof.
-  intros a b H. unfold wrap_i64.
-  rewrite (Zplus_mod a), (Zplus_mod b), H. reflexivity.
+  induction l as [|x r IH]; intros HF acc tacc Hacc.
+  - rewrite N.mul_1_r. exact Hacc.
+  - inversion HF as [|y ys Hx Hr]; subst. cbv zeta.
+    destruct (negb (num_variants64 x =? 0)%Z && (max_int / num_variants64 x <? acc)%Z) eqn:E.
+    + unfold sat_of, max_int. split; [lia | left; reflexivity].
+    + rewrite N.mul_assoc. apply (IH Hr). clear IH Hr HF.
+      destruct Hx as [[Hv0 Hv1] Hv], Hacc as [[Ha0 Ha1] Ha].
+      set (v := num_variants64 x) in *.
+      destruct (Z.eq_dec v 0) as [Hz|Hz].
+      * (* v = 0: exact, the product is 0 *)
+        rewrite Hz, Z.mul_0_r. destruct Hv as [Hv|Hv]; [unfold max_int in *; lia|].
+        assert (num_variants x = 0) by lia. rewrite H, N.mul_0_r. unfold sat_of, max_int. split; [lia | right; reflexivity].
+      * assert (Hvpos : (0 < v)%Z) by lia.
+        assert (Hle : (acc <= max_int / v)%Z).
+        { apply andb_false_iff in E. destruct E as [E|E]; [apply negb_false_iff in E; lia | lia]. }
+        pose proof (mul_div_le_max _ _ Hvpos Hle) as Hprod.
+        split; [split; [apply Z.mul_nonneg_nonneg; lia | exact Hprod]|].
+        destruct Ha as [Ha|Ha]; destruct Hv as [Hv|Hv].
+        -- (* both MaxInt: then acc <= MaxInt/MaxInt = 1, impossible *)
+           exfalso. rewrite Hv in Hle. replace (max_int / max_int)%Z with 1%Z in Hle by reflexivity. unfold max_int in *. lia.
+        -- (* acc = MaxInt, v exact: v must be 1 *)
+           destruct (Z_lt_le_dec v 2) as [Hs|Hs].
+           ++ assert (v = 1)%Z by lia. left. rewrite H, Z.mul_1_r. exact Ha.
+           ++ exfalso. pose proof (div_max_lt _ Hs). lia.
+        -- (* v = MaxInt, acc exact: acc <= 1 *)
+           rewrite Hv in Hle. replace (max_int / max_int)%Z with 1%Z in Hle by reflexivity.
+           destruct (Z.eq_dec acc 0) as [H0|H0].
+           ++ right. rewrite H0 in *. assert (tacc = 0) by lia. subst tacc. reflexivity.
+           ++ assert (acc = 1)%Z by lia. left. rewrite H, Z.mul_1_l. exact Hv.
+        -- right. rewrite Ha, Hv. lia.
 Qed.
 
-Lemma wrap_i64_mul_r : forall a b, wrap_i64 (a * wrap_i64 b) = wrap_i64 (a * b).
-Proof. intros a b. apply wrap_i64_congr. rewrite Zmult_mod, wrap_i64_mod, <- Zmult_mod. reflexivity. Qed.
-Lemma wrap_i64_mul_l : forall a b, wrap_i64 (wrap_i64 a * b) = wrap_i64 (a * b).
-Proof. intros a b. rewrite Z.mul_comm, wrap_i64_mul_r, Z.mul_comm. reflexivity. Qed.
-Lemma wrap_i64_add_r : forall a b, wrap_i64 (a + wrap_i64 b) = wrap_i64 (a + b).
-Proof. intros a b. apply wrap_i64_congr. rewrite Zplus_mod, wrap_i64_mod, <- Zplus_mod. reflexivity. Qed.
-Lemma wrap_i64_add_l : forall a b, wrap_i64 (wrap_i64 a + b) = wrap_i64 (a + b).
-Proof. intros a b. rewrite Z.add_comm, wrap_i64_add_r, Z.add_comm. reflexivity. Qed.
+Lemma alt_loop_sat : forall (l : list node),
+  Forall (fun x => sat_of (num_variants64 x) (num_variants x)) l ->
+  forall acc tacc, sat_of acc tacc ->
+  sat_of ((fix go (l : list node) (num : Z) : Z :=
+             match l with
+             | [] => num
+             | x :: r => let v := num_variants64 x in
+                         if (max_int - v <? num)%Z then max_int else go r (num + v)%Z
+             end) l acc)
+         (tacc + (fix go (l : list node) : N := match l with [] => 0 | x :: r => num_variants x + go r end) l).
+Proof.
+  induction l as [|x r IH]; intros HF acc tacc Hacc.
+  - rewrite N.add_0_r. exact Hacc.
+  - inversion HF as [|y ys Hx Hr]; subst. cbv zeta.
+    destruct (max_int - num_variants64 x <? acc)%Z eqn:E.
+    + unfold sat_of, max_int. split; [lia | left; reflexivity].
+    + rewrite N.add_assoc. apply (IH Hr). clear IH Hr HF.
+      destruct Hx as [[Hv0 Hv1] Hv], Hacc as [[Ha0 Ha1] Ha].
+      set (v := num_variants64 x) in *.
+      split; [lia|].
+      destruct Ha as [Ha|Ha]; destruct Hv as [Hv|Hv].
+      * exfalso. unfold max_int in *. lia.
+      * assert (v = 0)%Z by lia. left. lia.
+      * assert (acc = 0)%Z by lia. left. lia.
+      * right. lia.
+Qed.
 
-Lemma wrap_i64_small : forall z, (- 9223372036854775808 <= z < 9223372036854775808)%Z -> wrap_i64 z = z.
-Proof. intros z H. unfold wrap_i64. rewrite Z.mod_small by lia. lia. Qed.
-
-Theorem count64_is_wrapped_count : forall t : node, num_variants64 t = wrap_i64 (Z.of_N (num_variants t)).
+Theorem count64_saturates : forall t : node, sat_of (num_variants64 t) (num_variants t).
 Proof.
   induction t as [s | l IH | l IH] using node_ind'.
-  - reflexivity.
-  - cbn [num_variants64 num_variants]. induction l as [|x r IHr]; [reflexivity|].
-    inversion IH as [|y ys Hx Hr]; subst. specialize (IHr Hr).
-    rewrite Hx, IHr, wrap_i64_mul_r, wrap_i64_mul_l. f_equal. lia.
-  - cbn [num_variants64 num_variants]. induction l as [|x r IHr]; [reflexivity|].
-    inversion IH as [|y ys Hx Hr]; subst. specialize (IHr Hr).
-    rewrite Hx, IHr, wrap_i64_add_r, wrap_i64_add_l. f_equal. lia.
+  - unfold sat_of, max_int. cbn. split; [lia | right; reflexivity].
+  - cbn [num_variants64 num_variants].
+    pose proof (seq_loop_sat l IH 1%Z 1) as H. rewrite N.mul_1_l in H. apply H.
+    unfold sat_of, max_int. split; [lia | right; reflexivity].
+  - cbn [num_variants64 num_variants].
+    pose proof (alt_loop_sat l IH 0%Z 0) as H. rewrite N.add_0_l in H. apply H.
+    unfold sat_of, max_int. split; [lia | right; reflexivity].
 Qed.
-
-Definition two63 : N := 9223372036854775808.
-
-Lemma count64_exact : forall t, num_variants t < two63 -> num_variants64 t = Z.of_N (num_variants t).
-Proof. intros t H. rewrite count64_is_wrapped_count. apply wrap_i64_small. unfold two63 in H. lia. Qed.
 
 Lemma parse_pattern_count : forall p t, parse_pattern p = Some t -> (num_variants64 t <= 1000)%Z.
 Proof.
@@ -95,11 +147,19 @@ Proof.
   inversion H; subst. unfold max_expanded in E. lia.
 Qed.
 
-Theorem accepted_within_limit : forall p t, parse_pattern p = Some t -> num_variants t < two63 ->
+(* a reported count below MaxInt is the number of expansions, for every tree *)
+Lemma count64_exact : forall t, (num_variants64 t < max_int)%Z -> num_variants64 t = Z.of_nat (length (expand t)).
+Proof.
+  intros t H. destruct (count64_saturates t) as [_ [E|E]]; [lia|].
+  rewrite E, <- (count_is_length t). lia.
+Qed.
+
+Theorem accepted_within_limit : forall p t, parse_pattern p = Some t ->
   num_variants64 t = Z.of_nat (length (expand t)) /\ (length (expand t) <= 1000)%nat.
 Proof.
-  intros p t H Hs. pose proof (parse_pattern_count _ _ H) as Hc.
-  rewrite (count64_exact _ Hs) in *. rewrite <- (count_is_length t) in *. lia.
+  intros p t H. pose proof (parse_pattern_count _ _ H) as Hc.
+  assert (E : num_variants64 t = Z.of_nat (length (expand t))) by (apply count64_exact; unfold max_int; lia).
+  split; [exact E | lia].
 Qed.
 
 (* rendering keeps the number of variants *)
@@ -112,13 +172,19 @@ Qed.
 Theorem render_all_length : forall t rs, render_all t = Some rs -> length rs = length (expand t).
 Proof. intros t rs H. unfold render_all in H. rewrite (all_some_length _ _ H). apply map_length. Qed.
 
-(* the 64-group pattern: accepted although it has 2^64 expansions *)
+(* the 64-group pattern (2^64 expansions): its count saturates, so it is rejected (it was accepted with a reported count of 0
+   before /repo commit 1160e46) *)
 Fixpoint repeat_bytes (n : nat) (s : bytes) : bytes := match n with O => [] | S k => s ++ repeat_bytes k s end.
 Definition overflow_pattern : bytes := cSLASH :: repeat_bytes 64 [cOPEN; 97; cCOMMA; 98; cCLOSE].
 
-Lemma overflow_witness : exists t, parse_pattern overflow_pattern = Some t /\ num_variants64 t = 0%Z /\
-  num_variants t = 18446744073709551616.
-Proof. eexists. split; [vm_compute; reflexivity|]. split; vm_compute; reflexivity. Qed.
+Lemma overflow_pattern_rejected :
+  parse_pattern overflow_pattern = None /\
+  exists ts t, scan overflow_pattern = Some ts /\ parse_go ts [] [] = Some t /\
+               num_variants64 t = max_int /\ num_variants t = 18446744073709551616.
+Proof.
+  split; [vm_compute; reflexivity|]. eexists. eexists.
+  split; [vm_compute; reflexivity|]. split; [vm_compute; reflexivity|]. split; vm_compute; reflexivity.
+Qed.
 
 (* ------------------------------------------------------------------ invalid patterns are rejected *)
 (* no unescaped [ or ] and no trailing backslash, written independently of the scanner *)
